@@ -407,7 +407,7 @@ func explore(r *vk.Run, f *family, rootKey string) searchResult {
 			vk.Fatalf("cases file: %v", err)
 		}
 		results := make([]*caseResult, len(cases))
-		done := r.RunIsolated(len(cases), vk.IsoOpts{CaseTimeout: 180 * time.Second, ExtraArgs: []string{"--c06-cases", path}},
+		done := r.RunIsolated(len(cases), vk.IsoOpts{CaseTimeout: 900 * time.Second, ExtraArgs: []string{"--c06-cases", path}},
 			func(i int, raw json.RawMessage, fatal string) {
 				if fatal != "" {
 					vk.Fatalf("%s: worker died in case %d (parent %v, blocks %d..%d): %s", f.Name, i, names(cases[i].Hist), cases[i].From, cases[i].To, fatal)
@@ -530,7 +530,7 @@ func explore(r *vk.Run, f *family, rootKey string) searchResult {
 			if err := ioutil.WriteFile(ppath, pdata, 0600); err != nil {
 				vk.Fatalf("cases file: %v", err)
 			}
-			r.RunIsolated(len(pairs), vk.IsoOpts{CaseTimeout: 180 * time.Second, ExtraArgs: []string{"--c06-cases", ppath}},
+			r.RunIsolated(len(pairs), vk.IsoOpts{CaseTimeout: 900 * time.Second, ExtraArgs: []string{"--c06-cases", ppath}},
 				func(i int, raw json.RawMessage, fatal string) {
 					if fatal != "" {
 						vk.Fatalf("%s: worker died in merge check %d: %s", f.Name, i, fatal)
